@@ -742,6 +742,24 @@ func (w *World) describeBlocked() string {
 	return sb.String()
 }
 
+// BlockedOnLocks describes the goroutines that are parked in a mutex operation right now ("" if none).  Called by a
+// harness goroutine that has just slept for a long (virtual) time - time only advances when nothing is runnable - a
+// non-empty answer means that the lock's holder is blocked as well.
+func BlockedOnLocks() string {
+	w := W
+	if w == nil {
+		return ""
+	}
+	var sb strings.Builder
+	for _, g := range w.live {
+		if (g.state == gParked || g.state == gPending) && g.op != nil && g.op.info().Kind == "lock" {
+			inf := g.op.info()
+			fmt.Fprintf(&sb, "g%d(%s) blocked in lock %s; ", g.ID, g.Name, inf.Obj)
+		}
+	}
+	return sb.String()
+}
+
 // abortAll unwinds every goroutine that is still alive.
 func (w *World) abortAll() {
 	w.aborting = true
